@@ -48,6 +48,7 @@ type Contract struct {
 	Safety  bool
 	Frame   bool // frame on: syntactic frame check is an obligation
 	Also          map[string][]string // property id -> labels of this block's obligations that additionally belong to that property
+	Resets        []string            // ghost set variables emptied at entry (ghost assignment: at body entry and at call sites before the precondition)
 	OnlyContracts []string // if set: only these callees' contracts are used, all others are treated as uncontracted
 	Opaque  bool
 	Params  []Binder
@@ -337,6 +338,15 @@ func applyClause(c *Contract, kw, label, text, file string, line int) error {
 		c.OnlyContracts = append(c.OnlyContracts, strings.Fields(strings.ReplaceAll(text, ",", " "))...)
 	case "frame":
 		c.Frame = strings.TrimSpace(text) != "off"
+	case "resets":
+		for _, n := range strings.Fields(strings.ReplaceAll(text, ",", " ")) {
+			c.Resets = append(c.Resets, n)
+			e, err := parseExpr(n) // a reset is a write: implies `modifies n`
+			if err != nil {
+				return fmt.Errorf("%s:%d: %v", file, line, err)
+			}
+			c.Mod = append(c.Mod, e)
+		}
 	case "also":
 		// also C02: label1, label2   -- the obligations with these labels are also part of property C02's check
 		parts := strings.SplitN(text, ":", 2)
